@@ -145,6 +145,11 @@ static void prng_group(void)
         /* cross the automatic reseed limit */
         prim("random-fetch-across-limit", 16384, 0, v); { static uint8_t bigo[16400]; ascon_random_fetch(&rs2, bigo, 16384); ascon_random_fetch(&rs2, bigo, 32); }
         prim("random-free", 0, 0, v); ascon_random_free(&rs2);
+        /* a generator with a history: the points at which it goes back to the system source depend on the (public) byte counts only */
+        { ascon_random_state_t rs4; static uint8_t bigo[10000]; prim("random-history", 10000, 1, v); ascon_random_init(&rs4);
+          ascon_random_fetch(&rs4, bigo, 10000); ascon_random_fetch(&rs4, bigo, 1); ascon_random_fetch(&rs4, bigo, 6382); ascon_random_fetch(&rs4, bigo, 1); ascon_random_fetch(&rs4, bigo, 1);
+          for (int i = 0; i < 17; i++) ascon_random_fetch(&rs4, bigo, 1000);
+          ascon_random_free(&rs4); }
         prim("ascon_random", 48, 0, v); ascon_random(out, 48);
         /* masked keys: init / randomize / extract */
         uint8_t key[20]; memcpy(key, K, 20); SECRET(key, 20);
